@@ -182,6 +182,9 @@ func (c *fctx) taintCalls(n ast.Node, en *env) *env {
 					if fi := c.t.funcs[fn]; fi != nil && i < len(fi.noesc) && fi.noesc[i] {
 						continue // the callee neither keeps nor returns this slice (trans_func.go)
 					}
+					if c.t.onlyReads03(fn, i) { // [ext:T03] the callee only reads the elements / the length of this parameter
+						continue
+					}
 					if c.t.notKept15(fn, i) { // [ext:T15] an out-parameter of a callee that can neither return nor store the slice
 						continue
 					}
@@ -349,6 +352,7 @@ func (c *fctx) stmt(s ast.Stmt, en *env, lc *lctx, next kont) string {
 				t.fail(s, "pointer variable %s", it.id.Name)
 			}
 			if it.val == nil {
+				c.zeroOK03(g, s)     // [ext:T03] no zero value of a struct with a pointer field
 				c.noZero08(g, it.id) // [ext:T08]
 				if noZero(g) {
 					t.fail(s, "zero value of %s, which contains a function (nil functions are not modelled)", it.id.Name)
@@ -369,7 +373,7 @@ func (c *fctx) stmt(s ast.Stmt, en *env, lc *lctx, next kont) string {
 		}
 		return rec(0, en)
 	case *ast.ReturnStmt:
-		c.checkOrder(s)
+		c.checkOrder(c.retForOrder03(x))                // [ext:T03] s, without the pointers that become interface values
 		if len(x.Results) == 0 && len(c.fi.named) > 0 { // [BitsCode] bare return: the current values of the named results
 			var vs []string
 			for _, rv := range c.fi.named {
@@ -399,7 +403,7 @@ func (c *fctx) stmt(s ast.Stmt, en *env, lc *lctx, next kont) string {
 			}
 			c.refuseNilOpaque08(c.fi.results[i], r) // [ext:T08]
 		}
-		return c.args(x.Results, en, func(vs []string) string { return lc.ret(c.retTerm(en, vs)) })
+		return c.retArgs03(x.Results, en, func(vs []string) string { return lc.ret(c.retTerm(en, vs)) }) // [ext:T03] c.args + interface results
 	case *ast.BranchStmt:
 		if x.Label != nil {
 			t.fail(s, "%s with a label", x.Tok)
@@ -451,6 +455,7 @@ func (c *fctx) retTerm(en *env, vs []string) string {
 	parts = append(parts, c.outNames07(en)...) // [ext:T07] slice parameters written in place are returned
 	parts = append(parts, c.outNames08(en)...) // [ext:T08] output parameters
 	parts = append(parts, c.outNames15(en)...) // [ext:T15] slice parameters written in place are returned
+	parts = append(parts, c.outNames03(en)...) // [ext:T03] slice parameters written in place
 	if len(parts) == 0 {
 		return tuple(vs)
 	}
@@ -816,7 +821,7 @@ func (t *Translator) emitFunc(fi *funcInfo) string {
 		var name string
 		en, name = c.declare(en, p, g)
 		params = append(params, fmt.Sprintf("(%s : %s)", name, g.coq()))
-		if g.k == kSlice && !(i < len(fi.noesc) && fi.noesc[i]) && !fi.isOut08(i) && !fi.isOut15(i) && !fi.isOut07(i) { // [func] noesc; [ext:T08] not an output parameter; [ext:T15] / [ext:T07] written in place: returned instead
+		if g.k == kSlice && !(i < len(fi.noesc) && fi.noesc[i]) && !fi.isOut08(i) && !fi.isOut15(i) && !t.isOut03(fi, p) && !fi.isOut07(i) { // [func] noesc; [ext:T08] not an output parameter; [ext:T15] / [ext:T03] / [ext:T07] written in place: returned instead
 			en = en.share(name) // the caller still holds the array
 		}
 	}
@@ -850,7 +855,8 @@ func (t *Translator) emitFunc(fi *funcInfo) string {
 	}
 	stateT = append(stateT, t.outTypes07(fi)...) // [ext:T07]
 	t.checkOuts07(fi)
-	t.checkOuts15(fi) // [ext:T15]
+	stateT = append(stateT, t.outTypes03(fi)...) // [ext:T03]
+	t.checkOuts15(fi)                            // [ext:T15]
 	if len(stateT) > 0 {
 		if len(rts) > 0 {
 			stateT = append(stateT, rt)
@@ -880,6 +886,8 @@ func (t *Translator) emitFunc(fi *funcInfo) string {
 	if c.tailParam != "" {
 		params = append(params, c.tailParam)
 	}
-	return fmt.Sprintf("(* func %s   (%s) *)\nDefinition %s %s : M %s :=\n%s.\n", fi.goName, t.pos(fi.decl),
+	params, fi.nExtra03 = append(params, c.extra03...), len(c.extra03) // [ext:T03]
+	notes := c.notesComment03()                                        // [ext:T03]
+	return fmt.Sprintf("(* func %s   (%s) *)\n%sDefinition %s %s : M %s :=\n%s.\n", fi.goName, t.pos(fi.decl), notes,
 		fi.name, strings.Join(params, " "), rt, strings.TrimRight(indentCoq(body), "\n"))
 }
